@@ -12,6 +12,27 @@ CHECKS = {
  "C02": ("model_checking", "bounded exhaustive enumeration (same case space as C01, plus empty files); oracle = independent strict ESRI validator/decoder (RefCodec)",
          "Every case of the C01 space plus n=0 files is written with the real ShapeWriter; the raw .shp bytes must pass a strict validator written from the ESRI whitepaper (no shared code with the library) and decode bit for bit to the geometry handed to the writer.",
          "Trusts RefCodec (harness/src/refmodel/codec.rs), which is itself exercised by the oracle self-test and by C03 (library reader vs RefCodec encoder).", "DESIGN.md 3/C02"),
+ "C04": ("model_checking", "bounded exhaustive enumeration of record sequences (all ordered tuples over a different-size shape set, n<=4/5) written by the real writer; .shx parsed independently and compared with a RefCodec scan of the .shp; reader routes compared",
+         "Every ordered n-tuple (n = 0..4, thorough 5) over a per-type set of pairwise different-size shapes is written (in memory and through from_path); the .shx bytes are checked against an independent scan of the .shp, and shape_count / read_nth_shape / iteration with and without index / size hints must agree.",
+         "Bounded in n and in the shape set; RefCodec trusted as in C02.", "DESIGN.md 3/C04"),
+ "C05": ("model_checking", "bounded exhaustive enumeration of extreme-value placements (every slot x special value, every low/high slot pair, whole-dimension fills) on the real constructors and writer; oracle = independent numeric fold",
+         "Every placement of one special value, of a (low, high) pair in two slots of one dimension, and of one special value in a whole dimension, over small structures and 1-3 shape sequences of all 13 types; per-shape bbox(), stored record boxes (RefCodec) and the header box (bytes and ShapeReader::header()) must equal an independent min/max fold.",
+         "+0/-0 compare numerically; NaN excluded; header M not judged for MultiPatch files or files with no-data measures (the property disclaims both).", "DESIGN.md 3/C05"),
+ "C06": ("model_checking", "complete enumeration of the 13x14 (requested, actual) type matrix and of all conversion pairs on the real reader and TryFrom impls",
+         "All ordered (requested S, actual T) pairs over files of 1-3 records (library-written, plus RefCodec-written null and mixed-type files), every shape value of the C01 quick structure set against all 13 target types, bulk conversion with the wrong element at every position. Finite part is complete (exhaustive=true for the matrix).",
+         "Error fields compared through integer codes.", "DESIGN.md 3/C06"),
+ "C09": ("model_checking", "stateright BFS over all operation histories {write a, write b, finalize}^<=depth x endings x index x 13 types, each state executed on the real ShapeWriter over instrumented devices (explicit-state, state = history)",
+         "All histories up to depth 6 (thorough 10) with every ending (drop, finalize+drop, write_shapes consuming k=0..2 shapes), with and without .shx, for all 13 types; after every successful finalize both devices must be flushed and hold a complete file (RefCodec) with exactly the shapes so far; a finalize with nothing new must add no entry to either operation log; final bytes equal the writes+drop run of the same tree.",
+         "Bounded depth. The instrumented device is the whole environment (no real file system).", "DESIGN.md 3/C09"),
+ "C10": ("model_checking", "stateright BFS over histories {Wa, Wb, F, rejected write} for all 13x12 type pairs x 3 writer routes on the real code; oracle = error value, operation log, byte equality with the history minus rejected calls",
+         "All 156 ordered (file type, offered type) pairs x {ShapeWriter+shx, ShapeWriter, complete Writer} x all histories up to depth 5 (thorough 8) with at most 2 rejected calls at every position.",
+         "Bounded depth; .dbf date stamp masked.", "DESIGN.md 3/C10"),
+ "C18": ("model_checking", "bounded exhaustive (parts, points-per-part) grid on the real size_in_bytes / write_to / record header",
+         "Dense grid of part-length vectors (<=4 parts x lengths <=5; thorough <=6 x <=8) x kinds x open/closed rings for all 13 types plus a fixed ladder of large shapes; announced size == emitted bytes and record-header words*2 == size+4.",
+         "Random larger shapes replaced by a deterministic ladder.", "DESIGN.md 3/C18"),
+ "C19": ("model_checking", "complete enumeration of all 2^32 type codes on the real ShapeType::from (and Header::read_from in the thorough tier) against a literal ESRI table",
+         "ShapeType::from for every one of the 2^32 codes (exactly 14 accepted, re-encoding is the identity, types match the table); header and record routes over a structured code set (all 2^32 headers in thorough); has_z/has_m/is_multipart/Display for the 14 types.",
+         "exhaustive=true for the 2^32 domain. is_multipart is not judged for NullShape (the statement does not place it).", "DESIGN.md 3/C19"),
 }
 
 NOT_YET = {}
